@@ -144,13 +144,13 @@ func init() {
 				if b.NewIter() == nil {
 					return nil
 				}
-				before := Canon(b.Opts(), b.Obj())
+				before, ids := CanonIDs(b.Opts(), b.Obj())
 				seq := b.ExpSeq()
-				v := iterGraphCheck(b.NewIter, seq, b.Opts(), fullN, tag("C08"), st)
+				v := iterGraphCheck(b.NewIter, ids, seq, b.Opts(), fullN, tag("C08"), st)
 				if v != nil {
 					return v
 				}
-				if after := Canon(b.Opts(), b.Obj()); after != before {
+				if after, _ := CanonIDs(b.Opts(), b.Obj()); after != before {
 					return viol(tag("C08", "C18"), "invariant", "iterating changed the container: %s -> %s", clip(before, 300), clip(after, 300))
 				}
 				st.Nested[fmt.Sprintf("container_states_n%d", len(seq))]++
